@@ -86,6 +86,10 @@ class Center:
         else:
             res = self.offset
 
+        if hasattr(res, "form") and hasattr(res, "copy"):
+            # the offset is a StateVector: use the point it represents, not its raw element values
+            res = res.copy(form="cartesian")
+
         return self.orientation.convert_to(date, orientation) @ res
 
 
